@@ -224,6 +224,7 @@ pub enum MB {
 /// the assertion: the state after the keyword is early-accepting for one and on the path of the other
 #[derive(Logos, Debug, Clone, PartialEq)]
 #[logos(extras = Log, error = MyErr)]
+#[logos(skip("!x*", sk_unit, ignore(case)))]
 pub enum ML {
     #[regex(r"let(?-u:\b)", cb_val)]
     Kw(usize),
@@ -237,8 +238,6 @@ pub enum ML {
     Sp,
     #[token("\n")]
     Nl,
-    #[token("!", cb_skip)]
-    Bang,
 }
 
 fn reference_ml(input: &str) -> (Vec<(String, usize, usize)>, Log) {
@@ -261,7 +260,8 @@ fn reference_ml(input: &str) -> (Vec<(String, usize, usize)>, Log) {
         } else if rest[0] == b'\n' {
             ("Ok(Nl)".into(), 1, false)
         } else if rest[0] == b'!' {
-            (String::new(), 1, true)
+            // a skip with a callback and ignore(case): "!" and every following x / X
+            (String::new(), 1 + rest[1..].iter().take_while(|c| **c == b'x' || **c == b'X').count(), true)
         } else {
             let lcp = |kw: &[u8]| kw.iter().zip(rest.iter()).take_while(|(x, y)| x == y).count();
             let mut e = lcp(b"let").max(lcp(b"end")).max(1);
@@ -528,8 +528,8 @@ pub fn run(tier: &str, rep: &mut Report) {
     strings(&named_alpha, l, &mut |s| check(rep, "M", s, observe::<M>(s), reference(s, Which::Named), &mut digest));
     strings(&clos_alpha, l, &mut |s| check(rep, "C", s, observe::<C>(s), reference(s, Which::Closures), &mut digest));
     // look-ahead keyword next to the longer token continuing with the asserting byte
-    strings(&["l", "e", "t", "n", "d", " ", "\n", "!", "é"], l + 2, &mut |s| check(rep, "ML", s, observe::<ML>(s), reference_ml(s), &mut digest));
-    for s in ["let let\nend\nend", "let!let letx end", "end\n\nend end\nlet", "letend", "endlet \n"] {
+    strings(&["l", "e", "t", "n", "d", " ", "\n", "!", "é", "x", "X"], l + 2, &mut |s| check(rep, "ML", s, observe::<ML>(s), reference_ml(s), &mut digest));
+    for s in ["let let\nend\nend", "let!let letx end", "!xXxX let !X\nend", "x!X!x end", "end\n\nend end\nlet", "letend", "endlet \n"] {
         check(rep, "ML", s, observe::<ML>(s), reference_ml(s), &mut digest);
     }
     // longer digit runs and bump runs
